@@ -84,7 +84,7 @@ impl Prop for C19 {
         ctx.tier.pick(4000, 30_000)
     }
     fn rule(&self) -> &'static str {
-        "real binary run from nested working directories: depth 0-6 between the working directory and the directory holding pasfmt.toml, several pasfmt.toml on the path (nearest must win), --config-file (existing, missing, a directory), random subsets of the 7 options split between file and -C, repeated -C for one key, documented values plus invalid ones (unknown key in file or -C, ill-typed values, out-of-range tab_width, bad enum, nested table); a 20-line reference resolver (defaults, then nearest file or --config-file, then -C in order) predicts the effective configuration; oracle: output equals the output of the same binary given the predicted configuration entirely through -C from an empty directory; rejections: non-zero exit, no file modified. Non-trivial: >= 2 layers set the same key to different values; distinct by layer contents."
+        "real binary run from nested working directories: depth 0-6 between the working directory and the directory holding pasfmt.toml, several pasfmt.toml on the path (nearest must win), --config-file (existing, missing, a directory), random subsets of the 7 options split between file and -C, repeated -C for one key, documented values plus invalid ones (unknown key in file or -C, ill-typed values in file or -C, out-of-range tab_width, bad enum, nested table, TOML syntax error, a discovered or explicitly named file that is not UTF-8); a 20-line reference resolver (defaults, then nearest file or --config-file, then -C in order) predicts the effective configuration; oracle: output equals the output of the same binary given the predicted configuration entirely through -C from an empty directory; rejections: non-zero exit, no file modified. Non-trivial: >= 2 layers set the same key to different values; distinct by layer contents."
     }
     fn floor(&self, tier: Tier) -> u64 {
         tier.pick(100, 2_000)
@@ -183,7 +183,7 @@ impl Prop for C19 {
             cli::age_file(&f);
             let before = cli::stat(&f);
             let mut a = cli_args.clone();
-            let how = if decoy { rng.below(5) } else { rng.below(8) };
+            let how = if decoy { rng.below(5) } else { rng.below(12) };
             match how {
                 0 => a.extend(["-C".into(), "no_such_option=1".into()]),
                 1 => a.extend(["-C".into(), "wrap_column=abc".into()]),
@@ -198,6 +198,32 @@ impl Prop for C19 {
                     }
                 }
                 6 => a.extend(["--config-file".into(), cwd.join("missing.toml").to_string_lossy().to_string()]),
+                8 | 9 | 10 => {
+                    // the nearest (discovered) file cannot be read as the documented format: bytes that are
+                    // not UTF-8 (a cp1252 comment), a TOML syntax error, an ill-typed value
+                    // (an ill-typed value only counts when no -C option replaces it before the
+                    // configuration is deserialised)
+                    let free_key = KEYS.iter().find(|k| !overrides.iter().any(|(o, _)| o == *k));
+                    let ill_typed = free_key.map(|k| match *k {
+                        "begin_style" | "line_ending" => format!("{k} = 3\n"),
+                        _ => format!("{k} = \"eighty\"\n"),
+                    });
+                    let bytes: Vec<u8> = match (how, ill_typed) {
+                        (8, _) => b"# gr\xf6\xdfe\nwrap_column = 80\n".to_vec(),
+                        (10, Some(t)) => t.into_bytes(),
+                        _ => b"wrap_column = = 80\n".to_vec(),
+                    };
+                    std::fs::write(cwd.join("pasfmt.toml"), bytes).unwrap();
+                    if explicit.is_some() {
+                        a.extend(["-C".into(), "line_ending=cr".into()]);
+                    }
+                }
+                11 => {
+                    // the same unreadable file named explicitly
+                    let p = cwd.join("latin1.toml");
+                    std::fs::write(&p, b"# gr\xf6\xdfe\nwrap_column = 80\n").unwrap();
+                    a.extend(["--config-file".into(), p.to_string_lossy().to_string()]);
+                }
                 _ => {
                     std::fs::write(cwd.join("pasfmt.toml"), "[section]\nwrap_column = 80\n").unwrap();
                     if explicit.is_some() {
